@@ -12,7 +12,7 @@ import (
 
 func init() {
 	register(&Def{ID: "C16", Engine: "E1", Run: runC16,
-		Rule: "the generators of C01/C02 (element access, slicing), C04 (view writes, copies, conversions), C06/C11/C12/C07 (elementwise operations and option modes), C08 (reductions), C09 (products), C10 (stacking/repetition) and C14 (serialisation) re-run with every operand and destination independently taken from the column-major family LF = {F (declared over raw backing), Fc (converting constructor), FS (slice of F), FT (lazy transpose of F), FM (materialised FS)} and mixed with row-major C; " +
+		Rule: "the generators of C01/C02 (element access, slicing), C04 (view writes, copies, conversions), C06/C11/C12/C07 (elementwise operations and option modes), C08 (reductions), C09 (products), C10 (stacking/repetition) and C14 (serialisation) re-run with every operand and destination independently taken from the column-major family LF = {F (declared over raw backing), Fc (converting constructor), FS (slice of F), FT (lazy transpose of F), FM (materialised FS), FR / FL (only the first / only the last axis sliced: slice lists shorter than the rank, contiguous column-major views)} and mixed with row-major C; " +
 			"oracle: the SAME reference result as for row-major operands (the model is layout-free); any refusal (error or panic) is accepted, a different arrangement of elements never. one case = one tuple; non-trivial = >= 2 elements",
 		Assume: []string{"reshape is excluded (C13: it follows the tensor's own data order)", "transposition of column-major tensors is covered by C03 (source F) and recorded there"}})
 }
